@@ -110,7 +110,20 @@ def analyse(ctx, case, run, S):
                 ctx.solve_nonzero(S, run, '%s residual[%s]' % (case['name'], run.basis_name(b)), run.norm.nm(nid)[0], side, cfg=cfg, key='C07:substituted-residual-zero', pred='tampered_accepted')
 
 
+def relation_cases(tier):
+    """the statement "acceptance establishes promise_j <= value_j for EVERY commitment" is the paper relation with one weight z^(2(j+1)) per position
+    (smt/spec.py, shared with C02): adversarial proofs over aggregates of 8 and 16 with a promise at every position"""
+    from props.c02 import ilog2
+    out = []
+    for (n, m, x) in ([(2, 8, 1), (1, 16, 2)] if tier == 'quick' else [(2, 8, 1), (1, 16, 2), (8, 8, 3), (4, 16, 1)]):
+        cfg = {'scenario': 'adversarial', 'n': n, 'x': x, 'members': [{'m': m, 'cap': m, 'rounds': ilog2(n * m), 'promises': ['sym'] * min(m, 4) + [None] * (m - min(m, 4))}], 'actions': ['VerifyOnly']}
+        out.append({'cfg': cfg, 'kind': 'relation', 'name': 'relation n%d m%d c%d x%d' % (n, m, m, x)})
+    return out
+
+
 def run(ctx):
+    import props.c02 as c02
+    parallel_cases(ctx, relation_cases(ctx.tier), c02.analyse)
     parallel_cases(ctx, cases(ctx.tier), analyse)
     bounds = {'configurations': 'sub-lattice incl. m up to 4 (8 thorough); every position j; batch positions 0..2', 'within': 'promise values are symbolic variables (registry) where the bit length leaves room; boundary values 0, value, 2^n-1, 2^n, 2^63, u64::MAX concrete'}
     return finish(ctx, [A_ALL[k] for k in ('A1', 'A2', 'A4', 'A5', 'HOOK')], FUNCS, bounds,
